@@ -134,6 +134,60 @@ pub fn check_range<R: std::io::Read + std::io::Seek + Clone>(
     if let Some(d) = rd::first_diff(&got, &rev) {
         fail!(format!("{sigp}:rev"), "reverse range {} over {} entries: {}", show_bounds(r), entries.len(), d);
     }
+    // iterators are Clone: a clone taken mid-iteration and kept alive must not disturb the original, and must itself
+    // continue from the same place
+    if want.len() >= 2 {
+        let mut it = rd::guard("into_range_iter", || reader.clone().into_range_iter(r.clone()))?;
+        let first = rd::guard("RangeIter::next", || it.next().map(rd::own))?;
+        let mut cl = it.clone();
+        let mut a = vec![];
+        while let Some(e) = rd::guard("RangeIter::next", || it.next().map(rd::own))? {
+            a.push(e);
+            if a.len() > entries.len() {
+                break;
+            }
+        }
+        let mut b = vec![];
+        while let Some(e) = rd::guard("RangeIter::next", || cl.next().map(rd::own))? {
+            b.push(e);
+            if b.len() > entries.len() {
+                break;
+            }
+        }
+        let rest: Entries = want[1..].to_vec();
+        if first.as_ref() != want.first() || a != rest || b != rest {
+            fail!(
+                format!("{sigp}:clone"),
+                "range {} over {} entries: after cloning the iterator mid-way, original yields {} more entries and the clone {} (expected {} each)",
+                show_bounds(r), entries.len(), a.len(), b.len(), rest.len()
+            );
+        }
+        let mut it = rd::guard("into_rev_range_iter", || reader.clone().into_rev_range_iter(r.clone()))?;
+        let first = rd::guard("RevRangeIter::next", || it.next().map(rd::own))?;
+        let mut cl = it.clone();
+        let mut a = vec![];
+        while let Some(e) = rd::guard("RevRangeIter::next", || it.next().map(rd::own))? {
+            a.push(e);
+            if a.len() > entries.len() {
+                break;
+            }
+        }
+        let mut b = vec![];
+        while let Some(e) = rd::guard("RevRangeIter::next", || cl.next().map(rd::own))? {
+            b.push(e);
+            if b.len() > entries.len() {
+                break;
+            }
+        }
+        let rest: Entries = rev[1..].to_vec();
+        if first.as_ref() != rev.first() || a != rest || b != rest {
+            fail!(
+                format!("{sigp}:clone"),
+                "reverse range {} over {} entries: after cloning the iterator mid-way, original yields {} more entries and the clone {} (expected {} each)",
+                show_bounds(r), entries.len(), a.len(), b.len(), rest.len()
+            );
+        }
+    }
     Ok(want)
 }
 
